@@ -505,5 +505,10 @@ func alignCapacity(s interface{}, channels, c int) {
 	if channels == 0 {
 		return
 	}
-	reflect.ValueOf(s).Elem().SetCap(c - c%channels)
+	// a buffer that ends in a partial frame can have a length above the
+	// aligned capacity; the capacity is never trimmed below the length.
+	v := reflect.ValueOf(s).Elem()
+	if aligned := c - c%channels; aligned >= v.Len() {
+		v.SetCap(aligned)
+	}
 }
